@@ -279,7 +279,7 @@ func (r ValueRange) Includes(v Value) Value {
 	if v.IsNull() {
 		return True
 	}
-	if len(v.Type().TestConformance(r.TypeConstraint())) != 0 {
+	if !v.Type().HasDynamicTypes() && len(v.Type().TestConformance(r.TypeConstraint())) != 0 {
 		// If the value doesn't conform to the type constraint then it's
 		// definitely not in the range.
 		return False
